@@ -943,6 +943,9 @@ func (x *sgx) execStmt(st ast.Stmt, rest []ast.Stmt, env *sgEnv, k sgKont) lnode
 		if b == nil || b.kind != sgBuilder {
 			failAt(s, "unrecognised statement %s", src(s))
 		}
+		if m == "Grow" && pureSizeExpr(args[0]) {
+			return next(env) // a capacity hint: capacity is not modelled (S5)
+		}
 		switch m {
 		case "WriteByte":
 			if r, ok := charLit(args[0]); ok {
@@ -1779,4 +1782,25 @@ func genStr(pkg *pkgInfo) (text string, err error) {
 	b.WriteString(strings.Join(x.defs, "\n"))
 	b.WriteString("\nend Anytype.Generated.SG\n")
 	return b.String(), nil
+}
+
+// pureSizeExpr: an expression made of integer literals, identifiers, len(identifier) and + - * only
+// (no calls with effects, no indexing that could panic).
+func pureSizeExpr(e ast.Expr) bool {
+	switch e := e.(type) {
+	case *ast.BasicLit:
+		return e.Kind == token.INT
+	case *ast.Ident:
+		return true
+	case *ast.ParenExpr:
+		return pureSizeExpr(e.X)
+	case *ast.BinaryExpr:
+		return (e.Op == token.ADD || e.Op == token.SUB || e.Op == token.MUL) && pureSizeExpr(e.X) && pureSizeExpr(e.Y)
+	case *ast.CallExpr:
+		if id, ok := e.Fun.(*ast.Ident); ok && id.Name == "len" && len(e.Args) == 1 {
+			_, isIdent := e.Args[0].(*ast.Ident)
+			return isIdent
+		}
+	}
+	return false
 }
